@@ -27,6 +27,7 @@ func Run(m *mon.M) {
 	m.Require("tiling.probes", 5000)
 	m.Require("loop.vertices_at_index_cell_centre", 50)
 	m.Require("polygon.probes", 5000)
+	m.Require("polygon.many_loops", 100)
 	maxN := m.N(600, 10000)
 	// thorough: loops of up to 10^4 vertices in one case out of twelve (each costs ~1 s of exact arithmetic), 1200 otherwise
 	m.Stream("loop", m.N(5000, 250000), func(c *mon.Case) {
@@ -208,6 +209,23 @@ func loopCase(c *mon.Case, maxN int) {
 			}
 		}
 	}
+	// the same loop in an index that was built before the loop was added ("after the index exists"): a small
+	// far-away shape is added and queried first, on another side of the sphere so that its cells sort on
+	// either side of the loop's
+	{
+		idx := s2.NewShapeIndex()
+		far := gen.StarLoop(r, gen.Near(r, s2.Point{Vector: sp.Center.Mul(-1)}, 0.3*r.Float64()), 3+r.Intn(5), 0.01, 0.02)
+		idx.Add(s2.LaxLoopFromPoints(far.Vs))
+		q0 := s2.NewContainsPointQuery(idx, s2.VertexModelSemiOpen)
+		_ = q0.Contains(ps[0])
+		sh := s2.LaxLoopFromPoints(append([]s2.Point(nil), vs...))
+		idx.Add(sh)
+		q := s2.NewContainsPointQuery(idx, s2.VertexModelSemiOpen)
+		for i, p := range ps {
+			report(i, "ContainsPointQuery.ShapeContains(LaxLoop-added-to-built-index)", q.ShapeContains(sh, p))
+		}
+		c.Count("loop.added_to_built_index", 1)
+	}
 	// the probes at cell centres of the built index (where the query segment degenerates)
 	if big {
 		idx := s2.NewShapeIndex()
@@ -278,6 +296,22 @@ func polygonCase(c *mon.Case) {
 		centers = append(centers, ctr)
 		depth := 1 + r.Intn(4)
 		rad := gen.LogUniform(r, 1e-6, 0.5)
+		if r.Intn(5) == 0 { // many small loops side by side: more than 12 loops of differing sizes in one polygon
+			k := 13 + r.Intn(18)
+			x, y, z := gen.Frame(ctr)
+			ir := rad * math.Sin(math.Pi/float64(k)) * 0.7
+			for j := 0; j < k; j++ {
+				n := 3 + r.Intn(12)
+				sp := gen.StarLoop(r, gen.AtPolar(x, y, z, rad, 2*math.Pi*float64(j)/float64(k)), n, ir*0.6, ir)
+				sps = append(sps, sp)
+				loops = append(loops, sp.Vs)
+				models = append(models, ref.NewLoopModel(gen.Vs(sp.Vs), origin, refDir))
+				all = append(all, sp.Vs...)
+				totalV += n
+			}
+			c.Count("polygon.many_loops", 1)
+			continue
+		}
 		for d := 0; d < depth; d++ {
 			n := 3 + r.Intn(30)
 			if r.Intn(4) == 0 {
